@@ -32,7 +32,7 @@ fn meta() -> Meta {
     Meta {
         id: "C19",
         level: "fault_enumeration",
-        rule: "for every configuration (naming x cleanup x write mode x 0/1 earlier run) the trace of file-system points of the history W W W5 W W R W F Reopen W5 W W is recorded fault-free; then every (site, occurrence) x burst in 1..3 is failed plus every pair of two single faults at different sites (quick: for the direct-mode configurations without earlier run; thorough: all); distinct_nontrivial = distinct (configuration, site, occurrence, burst) whose fault hits a rotation, cleanup, compression or initialisation step (not a plain write); plus 12 background-cleanup configurations under the scheduler's canonical schedule, real ENOSPC on the compression target (symlink to /dev/full planted at gz_create), a duplicate stream that is a full device for three records, and the current file on a full device (every failure reported, the empty file is not closed by the size criterion); the log directory removed for three records and re-created (no panic, reported, logging resumes); a rename that really fails because the target name is a directory; a start whose rename fails for real (name too long); buffered / asynchronous mode with the current file on a full device (rotation, shutdown, reopen_output, reset_flw; recovery after the device problem is over); the size criterion holds except for operations whose rotation attempt hit a fault; the failing-duplicate-stream scenario has a second writer (log_to_file_and_writer) whose file must hold every record; no file descriptor left (soft RLIMIT_NOFILE = 0: every open and every directory listing really fails with EMFILE, rename / remove work) for three rotating records between three before and three after, naming x {direct, buffered} x clock step {0, 1 s} x cleanup {none, KeepLogFiles}: no panic, nothing logged before is destroyed, losses reported, the records after are written; the same with the logger stopped and a new one started (append on / off) while no descriptor is available; a fourth burst length 'until the faults are cleared'; with the interposition shim loaded every libc call of the subject that changes the directory tree (mkdir, rename, link, open with O_CREAT / O_TRUNC, unlink, symlink; for the number namings also opendir) is failed once (thorough: also in a burst of two and until cleared), whether or not a guarded hook precedes it; nested records (a message that logs while it is formatted) on a full device: both failures of a call reported; create_symlink with its path taken by a non-empty directory (12 cases): every record written, one file per record, the problem reported",
+        rule: "for every configuration (naming x cleanup x write mode x 0/1 earlier run) the trace of file-system points of the history W W W5 W W R W F Reopen W5 W W is recorded fault-free; then every (site, occurrence) x burst in 1..3 is failed plus every pair of two single faults at different sites (quick: for the direct-mode configurations without earlier run; thorough: all); distinct_nontrivial = distinct (configuration, site, occurrence, burst) whose fault hits a rotation, cleanup, compression or initialisation step (not a plain write); plus 12 background-cleanup configurations under the scheduler's canonical schedule, real ENOSPC on the compression target (symlink to /dev/full planted at gz_create), a duplicate stream that is a full device for three records, and the current file on a full device (every failure reported, the empty file is not closed by the size criterion); the log directory removed for three records and re-created (no panic, reported, logging resumes); a rename that really fails because the target name is a directory; a start whose rename fails for real (name too long); buffered / asynchronous mode with the current file on a full device (rotation, shutdown, reopen_output, reset_flw; recovery after the device problem is over); the size criterion holds except for operations whose rotation attempt hit a fault; the failing-duplicate-stream scenario has a second writer (log_to_file_and_writer) whose file must hold every record; no file descriptor left (soft RLIMIT_NOFILE = 0: every open and every directory listing really fails with EMFILE, rename / remove work) for three rotating records between three before and three after, naming x {direct, buffered} x clock step {0, 1 s} x cleanup {none, KeepLogFiles}: no panic, nothing logged before is destroyed, losses reported, the records after are written; the same with the logger stopped and a new one started (append on / off) while no descriptor is available; a fourth burst length 'until the faults are cleared'; with the interposition shim loaded every libc call of the subject that changes the directory tree (mkdir, rename, link, open with O_CREAT / O_TRUNC, unlink, symlink, opendir) is failed once (thorough: also in a burst of two and until cleared), whether or not a guarded hook precedes it; nested records (a message that logs while it is formatted) on a full device: both failures of a call reported; create_symlink with its path taken by a non-empty directory (12 cases): every record written, one file per record, the problem reported",
         assumptions: vec![
             "a failing file-system call has no effect and returns an io::Error of kind PermissionDenied (never NotFound, which two rename sites treat as benign)".into(),
             "faults are injected through the guarded fs_point hook directly before the call (the sandbox runs as root, permission bits do not bite)".into(),
@@ -1321,6 +1321,8 @@ struct RunObs {
     sys_trace: Vec<&'static str>,
     /// the faults of this run were placed at system calls (not at hook sites)
     sys_faults: bool,
+    /// directory after each operation (for replay output)
+    dirs: Vec<Vec<String>>,
     lines: Vec<Vec<u8>>,
     exempt: BTreeSet<usize>,
     found: Vec<String>,
@@ -1369,12 +1371,12 @@ fn run(c: &Case, faults: &[FaultSpec], dev_full: Option<&str>) -> Result<RunObs,
         g.faults = faults.to_vec();
         if crate::hooks::shim_available() && !c.cfg.bg_cleanup {
             g.sys_dir = Some(env.dir.clone());
-            g.sys_fail_listings = listings_may_fail(c);
         }
     }
     let mut ops = Vec::new();
     let mut seen: BTreeSet<String> = BTreeSet::new();
     let mut names_seen = Vec::new();
+    let mut dirs: Vec<Vec<String>> = Vec::new();
     let mut exempt = BTreeSet::new();
     let mut gz_seen: Vec<String> = Vec::new();
     let mut initialised = false;
@@ -1424,6 +1426,7 @@ fn run(c: &Case, faults: &[FaultSpec], dev_full: Option<&str>) -> Result<RunObs,
             seen.insert(n.strip_suffix(".gz").unwrap_or(&n).to_string());
         }
         names_seen.push(seen.len());
+        dirs.push(family::list_names(&env.dir));
     }
     let (injected, trace, sys_trace) = {
         let mut g = env.ctx.fs.lock().unwrap();
@@ -1468,6 +1471,7 @@ fn run(c: &Case, faults: &[FaultSpec], dev_full: Option<&str>) -> Result<RunObs,
         trace,
         sys_trace,
         sys_faults: faults.iter().any(|f| f.site.starts_with("sys:")),
+        dirs,
         lines,
         exempt,
         found,
@@ -1618,12 +1622,6 @@ fn judge_obs(c: &Case, o: &RunObs, reference: Option<&Reference>) -> Result<(), 
         });
     }
     Ok(())
-}
-
-/// A failing directory listing (opendir) is placed for the number namings only: for the timestamp
-/// namings its reports are not classified yet (DESIGN, C19 (d)).
-fn listings_may_fail(c: &Case) -> bool {
-    matches!(c.cfg.naming(), Some(NamingK::Numbers | NamingK::NumbersDirect))
 }
 
 fn occ_class(c: &Case, site: &str, occ: usize) -> &'static str {
@@ -1791,9 +1789,6 @@ fn run_unit(tier: &str, unit: usize, out: &mut Out) {
         out.count("system_call_points", o.sys_trace.len() as u64);
         for (n, op) in o.sys_trace.iter().enumerate() {
             // (a failing directory listing is placed by the descriptor scenarios only, see DESIGN)
-            if *op == "sys:opendir" && !listings_may_fail(c) && std::env::var_os("FXV_OPENDIR_FAULTS").is_none() {
-                continue;
-            }
             for burst in if tier == "quick" { vec![1] } else { vec![1, 2, 1000] } {
                 placements.push(vec![FaultSpec {
                     site: (*op).to_string(),
@@ -1909,6 +1904,9 @@ fn replay(case: &Value) -> Vec<Violation> {
     let (v, o) = judge(c, &faults, unit, reference.as_ref());
     if let Some(o) = o {
         println!("  per op (injected, error lines, ok): {:?}\n  files: {:?}\n  lines: {:?}\n  groups: {:?}\n  system calls: {:?}", o.ops, o.names, o.found, o.groups, o.sys_trace);
+        for (i, d) in o.dirs.iter().enumerate() {
+            println!("  directory after operation {i}: {d:?}");
+        }
     }
     v.into_iter().collect()
 }
